@@ -27,8 +27,11 @@ KINDS = [
 
 
 def classify(msg):
+    low = msg.lower()
+    if "rlimit" in low or "resource limit" in low:      # "Resource limit (rlimit) exceeded": the solver gave up — never a verdict on the code
+        return "rlimit"
     for k, v in KINDS:
-        if k in msg:
+        if k in msg or k in low:
             return v
     return "other"
 
